@@ -713,30 +713,53 @@ def crit_one(env, fn, form, ranges, crits, values):
         if form == 'w':     # a row: one row of cells
             vars_[name] = [list(xs)]
             return name
+        if form == 's':     # one cell: the value itself (only for one-item ranges)
+            (vars_[name],) = xs
+            return name
         return arr_text(form, xs)
-    if fn in ('SUMIF', 'COUNTIF', 'AVERAGEIF'):
-        args = [arr('cra', ranges[0]), lit(crits[0])]
-        if values is not None:
-            if fn != 'AVERAGEIF':
-                raise ValueError('3-argument form is only checked for AVERAGEIF')
-            args.append(arr('vals', values))
-    else:
-        args = [arr('vals', values)]
-        for j, (r, c) in enumerate(zip(ranges, crits)):
-            args.append(arr('cr' + AZ[j], r))
-            args.append(lit(c))
-    formula = '%s(%s)' % (fn, ','.join(args))
-    raw = env.ev(formula, vars=vars_)
-    out = env.out(raw)
+    def build(crit_texts):
+        if fn in ('SUMIF', 'COUNTIF', 'AVERAGEIF'):
+            args = [arr('cra', ranges[0]), crit_texts[0]]
+            if values is not None:
+                if fn == 'COUNTIF':
+                    raise ValueError('COUNTIF has no 3-argument form')
+                args.append(arr('vals', values))
+        else:
+            args = [arr('vals', values)]
+            for j, (r, c) in enumerate(zip(ranges, crit_texts)):
+                args.append(arr('cr' + AZ[j], r))
+                args.append(c)
+        return '%s(%s)' % (fn, ','.join(args))
+    # the criterion as a text literal; a bare number also as the NUMBER it spells (COUNTIF(r,2)) and as a number variable;
+    # any criterion as a text variable (rotating, so that every delivery is seen for every kind of criterion)
+    spellings = [[lit(c) for c in crits]]
+    if any(NUM_RE.match(c) for c in crits):
+        spellings.append([c if NUM_RE.match(c) else lit(c) for c in crits])
+        for j, c in enumerate(crits):
+            if NUM_RE.match(c):
+                vars_['ncrit' + AZ[j]] = int(c) if re.match(r'-?[0-9]+\Z', c) else float(c)
+        spellings.append([('ncrit' + AZ[j]) if NUM_RE.match(c) else lit(c) for j, c in enumerate(crits)])
+    elif len(ranges[0]) % 2:
+        for j, c in enumerate(crits):
+            vars_['tcrit' + AZ[j]] = c
+        spellings.append(['tcrit' + AZ[j] for j in range(len(crits))])
     env.note('%s:%s' % (fn, cls))
     if cls.startswith('proper'):
         env.nt()
-    if judge(spec, raw, out):
-        return None
-    sel = selected(ranges, crits)
-    return fail('%s%s = %s, expected %s (selected positions %s)' % (
-        formula, (' with %s' % vars_) if vars_ else '', out, show(spec), sel), show(spec), out,
-        case=['one', fn, form, ranges, crits, values])
+    if len(spellings) > 2:
+        # the text literal always; of the other deliveries one per evaluation, in rotation over functions, forms and ranges
+        k = (len(fn) + len(form) + len(ranges[0]) + sum(len(c) for c in crits) + (0 if values is None else len(values) + 1)) % (len(spellings) - 1)
+        spellings = [spellings[0], spellings[1 + k]]
+    for sp in spellings:
+        formula = build(sp)
+        raw = env.ev(formula, vars=vars_)
+        out = env.out(raw)
+        if not judge(spec, raw, out):
+            sel = selected(ranges, crits)
+            return fail('%s%s = %s, expected %s (selected positions %s)' % (
+                formula, (' with %s' % vars_) if vars_ else '', out, show(spec), sel), show(spec), out,
+                case=['one', fn, form, ranges, crits, values])
+    return None
 
 
 NUM_CRITS = [op + num for op in ('>', '<', '>=', '<=', '=', '<>') for num in ('-1', '0', '2', '2.5')] + \
@@ -749,6 +772,8 @@ MIX = [2.5, -1, 4, 0]
 def value_families(c):
     n = len(c)
     fams = [NEG[:n], MIX[:n]]
+    if n == 1:
+        fams.append([0])        # a single cell holding 0 (falsy) is a value range like any other
     rev = list(reversed(c))
     if rev != list(c) and rev not in fams:
         fams.append(rev)
@@ -770,9 +795,10 @@ class CritBase(Sub):
 class CriteriaNumeric(CritBase):
     name = 'c11.criteria_num'
     rule = ('criteria range = every list of the bound over the pool x 27 criteria ({>,<,>=,<=,=,<>} x '
-            '{-1,0,2,2.5}, bare 2 / 2.5 / -1) x SUMIF, COUNTIF, AVERAGEIF (2 and 3 arguments), SUMIFS, '
+            '{-1,0,2,2.5}, bare 2 / 2.5 / -1; as text literal, a bare number also as a number literal and a number variable) x '
+            'SUMIF, AVERAGEIF (2 and 3 arguments), COUNTIF, SUMIFS, '
             'AVERAGEIFS, MAXIFS with value lists {all-negative, mixed, reversed criteria range} (every value '
-            'list for length 2), host lists and literal arrays; two criteria ranges with 8 second criteria; '
+            'list for length 2), host lists, literal arrays and - one cell - the bare values; two criteria ranges with 8 second criteria; '
             'result = statistic of exactly the selected items, 0 / any error on an empty selection; '
             'non-trivial = selection is a proper non-empty subset')
     min_cases = 399
@@ -783,7 +809,7 @@ class CriteriaNumeric(CritBase):
         top = 3 if tier == 'quick' else 4
         for n in range(1, top + 1):
             for c in lists_over(V, n):
-                yield ['c', c, ['h', 'c', 'w', 'l'] if (n <= 2 or (tier != 'quick' and n <= 3)) else ['h', 'c', 'w']]
+                yield ['c', c, (['s'] if n == 1 else []) + (['h', 'c', 'w', 'l'] if (n <= 2 or (tier != 'quick' and n <= 3)) else ['h', 'c', 'w'])]
         if tier != 'quick':
             for c in lists_over(V, 2):
                 yield ['cv', c]
@@ -800,7 +826,7 @@ class CriteriaNumeric(CritBase):
                     for fn in ('SUMIF', 'COUNTIF', 'AVERAGEIF'):
                         yield fn, form, [c], [crit], None
                     for vals in value_families(c):
-                        for fn in ('AVERAGEIF', 'SUMIFS', 'AVERAGEIFS', 'MAXIFS'):
+                        for fn in ('AVERAGEIF', 'SUMIF', 'SUMIFS', 'AVERAGEIFS', 'MAXIFS'):
                             yield fn, form, [c], [crit], vals
         elif kind == 'cv':
             fams = value_families(c)
@@ -823,8 +849,8 @@ class CriteriaNumeric(CritBase):
                                 yield fn, 'h', [c, d], [ca, cb], vals
 
 
-TEXTS = ['apple', 'apricot', 'banana', 'a', 'abc', 'a?c']
-PATTERNS = ['a*', '*a', 'a?c', '*', '?', 'apple', 'b*a', '*an*']
+TEXTS = ['apple', 'apricot', 'banana', 'a', 'abc', 'a?c', 'ab\ncd']
+PATTERNS = ['a*', '*a', 'a?c', '*', '?', 'apple', 'b*a', '*an*', 'ab\ncd', 'ab']
 
 
 class CriteriaText(CritBase):
@@ -854,7 +880,7 @@ class CriteriaText(CritBase):
             for form in forms:
                 yield 'COUNTIF', form, [t], [pat], None
                 for vals in (NEG[:n], MIX[:n]):
-                    for fn in ('AVERAGEIF', 'SUMIFS', 'AVERAGEIFS', 'MAXIFS'):
+                    for fn in ('AVERAGEIF', 'SUMIF', 'SUMIFS', 'AVERAGEIFS', 'MAXIFS'):
                         yield fn, form, [t], [pat], vals
             for cb in (SECOND_CRITS if case[2] else []):
                 for vals in (NEG[:n], MIX[:n]):
